@@ -5,6 +5,8 @@ CONSTANTS
   NilCloseGuarded = TRUE
   GuardTypedNil = TRUE
   CloseOnNilPayload = TRUE
+  PooledBuffer = FALSE
+  MaxSeq = 3
   MaxContent = 3
   MaxChunks = 4
   MaxChunk = 3
